@@ -117,6 +117,13 @@ class Run:
             self.ev["canaries"] += 1
             if any(bymap[id(o)].status == "sat" and o.expect == "unsat" for o in fobs): self.ev["canaries_refuted"] += 1
             else: self.canary_failed.append(cq)
+        # second chance for anything undecided: re-solve with little parallelism and a larger budget, so that machine load
+        # cannot turn a provable obligation into an alarm
+        retry = [o for o in obs if o.expect == "unsat" and bymap[id(o)].status in ("gaveup", "timeout")]
+        if retry and len(retry) <= 60:
+            for r2 in solve.solve_all(retry, timeout=timeout * 1.5, jobs=6):
+                if r2.status in ("unsat", "sat") or bymap[id(r2.ob)].status == "timeout":
+                    r2.secs += bymap[id(r2.ob)].secs; bymap[id(r2.ob)] = r2
         refuted = []
         base_path = os.path.join(HERE, "baseline", "%s.json" % self.pid)
         baseline = json.load(open(base_path))["discharged_keys"] if os.path.exists(base_path) else {}
@@ -144,15 +151,15 @@ class Run:
                 if len(self.ev["samples"]) < 6 and (self.ev["obligations"] % 7 == 1 or len(obs) < 20):
                     self.ev["samples"].append({"obligation": o.name, "result": "unsat", "solver": r.solver, "seconds": round(r.secs, 3)})
             elif r.status == "sat": refuted.append(r)
-            elif r.status == "gaveup" and stable_key(o) in baseline:
+            elif r.status in ("gaveup", "timeout") and stable_key(o) in baseline:
                 regress.setdefault(stable_key(o), []).append(r)
             else: self.undecided.append("obligation %s: %s %s" % (o.name, r.status, r.raw[:200]))
         for k, rs in regress.items():
             r = rs[0]
-            info = {"verdict": "no-native-replay", "detail": "the solvers answer 'unknown' (no proof, no model) for an obligation that is discharged on the unchanged tree",
+            info = {"verdict": "no-native-replay", "detail": "no solver proves it (answers: %s), twice, although the same obligation is discharged on the unchanged tree; no model was produced" % r.attempts,
                     "inputs": None, "native": None}
             path = self.write_replay(r, info)
-            self.violations.append({"what": "%s: obligation %s was discharged on the unchanged tree and is not provable any more (%d path%s; solver: unknown)"
+            self.violations.append({"what": "%s: obligation %s was discharged on the unchanged tree and is not provable any more (%d path%s; solvers give up)"
                                     % (r.ob.func, r.ob.kind, len(rs), "s" if len(rs) > 1 else ""), "replay": path, "failing_input_found": False, "detail": ""})
         self.ev["assumptions"] |= ex.assumptions
         self.ev["inlined"] = sorted(ex.inlined)
